@@ -279,8 +279,8 @@ def r4(ctx):
 
 
 def r_enum(ctx):
-    from .common import enum_identity
-    enum_identity(ctx, "C04.R5", ('connection',))
+    from .common import repo_idioms
+    repo_idioms(ctx, "C04.R5", ('connection',))
 
 
 RULES = [("C04.R1", r1), ("C04.R2", r2), ("C04.R3", r3), ("C04.R4", r4), ("C04.R5", r_enum)]
